@@ -10,7 +10,7 @@
 (***************************************************************************)
 EXTENDS Pyxis, Props, Json
 
-CONSTANTS Trees, BackSets, Collisions, Ptrs
+CONSTANTS Trees, BackSets, Collisions, Ptrs, InDirs
 
 P == TypeDef("P", "pub", <<Field("x", "pub", <<>>, TCPtr(TNm("u8")), None, FALSE)>>)
 P2 == TypeDef("P", "pub", <<Field("y", "pub", <<>>, TCPtr(TNm("u8")), None, FALSE),
@@ -53,17 +53,21 @@ ModB == [Module(<<"a", "b">>, <<<<"a", "P">>>>, <<Q, TypeDef("R", "pub", <<Field
 ModC == Module(<<"c">>, <<>>, <<TypeDef("S", "pub", <<>>)>>)
 ModEmpty == [Module(<<"e">>, <<>>, <<>>) EXCEPT !.backs = <<Backend("rust", Pro(4), NoText)>>]
 ModBare == Module(<<"d", "bare">>, <<>>, <<>>)
+(* a file name with a dot in its stem: c.v1.pyxis is module `c.v1`, next to module `c` *)
+ModDot == Module(<<"c.v1">>, <<>>, <<TypeDef("SV", "pub", <<>>)>>)
 
-MkInput(ptr, tree, bs, col) ==
-  [ptr |-> ptr,
+MkInput(ptr, tree, bs, col, indir) ==
+  [ptr |-> ptr, indir |-> indir,
    mods |-> CASE tree = "flat"   -> <<ModA(bs, col)>>
               [] tree = "nested" -> <<ModA(bs, col), ModB>>
               [] tree = "three"  -> <<ModC, ModA(bs, col), ModB>>
+              [] tree = "dotted" -> <<ModC, ModDot, ModA(bs, col)>>
               [] OTHER           -> <<ModA(bs, col), ModEmpty, ModBare>>]
 
 MCInit ==
-  /\ \E ptr \in Ptrs, tree \in Trees, bs \in BackSets, col \in Collisions :
-        input = MkInput(ptr, tree, bs, col)
+  /\ \E ptr \in Ptrs, tree \in Trees, bs \in BackSets, col \in Collisions, indir \in InDirs :
+        /\ (indir # "plain" => (bs \in {"none", "both"} /\ col = "none"))
+        /\ input = MkInput(ptr, tree, bs, col, indir)
   /\ InitRest
 
 MCSpec == MCInit /\ [][Next]_vars /\ WF_vars(Next)
